@@ -1,9 +1,11 @@
 #!/bin/bash
-# ./trypatch.sh <patch.diff> <Cxx|all> : analyse a scratch copy of /repo with the patch applied (never touches /repo).
+# ./trypatch.sh <ABSOLUTE patch.diff> <Cxx|all> : analyse a scratch copy of /repo with the patch applied (never touches /repo or /verif/evidence).
 cd "$(dirname "$0")"; . ./env.sh
 t="$(mktemp -d "${TMPDIR:-/tmp}/vtry.XXXXXX")"
 rsync -a --exclude .git /repo/ "$t/repo/"
 ( cd "$t/repo" && patch -s -p1 < "$1" ) || { echo "patch failed"; rm -rf "$t"; exit 3; }
-./bin/verifcheck -repo "$t/repo" -verif "$(pwd)" -prop "$2" -tier quick -evidence "$t/ev.json" 2>&1 | grep -v '^ADVISORY' | sed "s#$t/repo/##g"
+mkdir -p "$t/verif/checker" "$t/verif/evidence"
+cp known_findings.json "$t/verif/"; cp checker/known_funcs.txt "$t/verif/checker/"
+./bin/verifcheck -repo "$t/repo" -verif "$t/verif" -prop "$2" -tier quick 2>&1 | grep -v '^ADVISORY' | sed "s#$t/repo/##g"
 rc=${PIPESTATUS[0]}
 rm -rf "$t"; exit $rc
